@@ -75,7 +75,13 @@ func c13XYZ(in, w [3]float32) (kind, msg string, e1, e2 float64) {
 	bk := [3]float32{back.X, back.Y, back.Z}
 	for i := 0; i < 3; i++ {
 		d := math.Abs(float64(bk[i]) - float64(in[i]))
-		s := math.Max(1, math.Abs(float64(in[i])))
+		// "within 1e-5 at unit scale": the unit is the white. For whites of ordinary size that is 1;
+		// for whites on another scale (Y = 100, 65535, 1e-6 ...) it is the white's own component.
+		unit := 1.0
+		if w[1] > 4 || w[1] < 0.2 {
+			unit = math.Abs(float64(w[i]))
+		}
+		s := math.Max(unit, math.Abs(float64(in[i])))
 		if d/s > e2 {
 			e2 = d / s
 		}
